@@ -31,7 +31,7 @@ def _ggm_trace(out, pid, seed, runs, steps):
     tr = os.path.join(wd, "ggm.ndjson")
     rep = run_vh(["ggm-record", "--out", tr, "--seed", seed, "--runs", runs, "--steps", steps])
     out.add_vh(rep, only={pid})
-    res, rej = validate_trace("Trace_GGM", "Trace_GGM.cfg", tr, tag=pid + "-tv")
+    res, rej = validate_trace("Trace_GGM", "Trace_GGM_c10.cfg" if pid == "C10" else "Trace_GGM_c11.cfg", tr, tag=pid + "-tv")
     out.states += res.states
     out.transitions += max(res.generated - 1, 0)
     out.extra.setdefault("trace_validation", []).append(
